@@ -13,7 +13,7 @@ import (
 func init() {
 	register(&propDef{
 		id:      "C21",
-		explain: "Structural necessary conditions of 'an https request never travels over a plaintext connection and vice versa': (R1) in HostClient's single request path every path to the transport passes, unconditionally, the comparison of HostClient.IsTLS with the scheme of the request URI obtained through Request.URI() (which forces the lazy parse), taken on its 'equal' outcome - a mismatch returns an error before anything is sent; (R2) Client.Do picks the host-client map with the same boolean it stores as IsTLS in the HostClient it creates, and that boolean is true exactly under the isHTTPS test; unsupported schemes return an error; (R3) dialAddr returns, when asked for TLS and the dialled connection is not already TLS, only the result of tls.Client / the TLS handshake; dialHostHard passes HostClient.IsTLS to it; (R4) PipelineClient hands its IsTLS to every connection client it creates. Not decided: LBClient over user-supplied clients, TLS correctness itself.",
+		explain: "Structural necessary conditions of 'an https request never travels over a plaintext connection and vice versa': (R1) in HostClient's single request path every path to the transport passes, unconditionally, the comparison of HostClient.IsTLS with the scheme of the request URI obtained through Request.URI() (which forces the lazy parse), taken on its 'equal' outcome - a mismatch returns an error before anything is sent; (R2) Client.Do picks the host-client map with the same boolean it stores as IsTLS in the HostClient it creates, and that boolean is true exactly under the isHTTPS test; unsupported schemes return an error; (R3) dialAddr returns, when asked for TLS and the dialled connection is not already TLS, only the result of tls.Client / the TLS handshake; dialHostHard passes HostClient.IsTLS to it; (R4) PipelineClient hands its IsTLS to every connection client it creates; (R5) when a redirect Location is resolved against the current URL, every re-parse of the URI either parses text rebuilt from the base scheme and host or is followed by a look at the (saved) scheme - so a reference without a scheme keeps https. Not decided: LBClient over user-supplied clients, TLS correctness itself.",
 		run:     runC21,
 	})
 }
@@ -266,4 +266,134 @@ func runC21(p *Prog, r *Report) {
 		}
 		r.Floor("R4", "pipelineConnClient.IsTLS assignments", n, 1)
 	}
+	schemeSurvivesResolution(p, r)
+}
+
+// schemeSurvivesResolution (R5): following a redirect resolves the Location
+// against the current URL. URI.Parse starts from a reset URI, so a reference
+// that carries no scheme of its own ("/path", "other") comes out as plain http
+// unless the text that is parsed was rebuilt from the base scheme and host, or
+// the code looks at the scheme afterwards and restores it. In the
+// reference-resolution function every Parse call is one or the other -
+// otherwise a host-relative redirect of an https request is followed over
+// plaintext.
+func schemeSurvivesResolution(p *Prog, r *Report) {
+	parse := p.Func("(*URI).Parse")
+	rebuild := p.Func("(*URI).appendSchemeHost")
+	if parse == nil || rebuild == nil {
+		r.Undecided("R5", "(*URI).Parse / (*URI).appendSchemeHost", "not found")
+		return
+	}
+	// the resolver: methods of URI, other than Parse's own family, that call Parse on their receiver
+	n := 0
+	for _, fn := range p.funcsIn("") {
+		if recvTypeName(fn) != "URI" || fn == parse || len(fn.Params) == 0 {
+			continue
+		}
+		for _, b := range fn.Blocks {
+			for _, in := range b.Instrs {
+				c, ok := in.(*ssa.Call)
+				if !ok || !isCallTo(c, parse) || len(c.Call.Args) != 3 || c.Call.Args[0] != ssa.Value(fn.Params[0]) {
+					continue
+				}
+				n++
+				// (a) the parsed text derives from appendSchemeHost
+				derives := false
+				seen := map[ssa.Value]bool{}
+				var walk func(v ssa.Value, d int)
+				walk = func(v ssa.Value, d int) {
+					if v == nil || seen[v] || d > 10 || derives {
+						return
+					}
+					seen[v] = true
+					switch w := v.(type) {
+					case *ssa.Call:
+						if isCallTo(w, rebuild) {
+							derives = true
+							return
+						}
+						// append(x, ...) and module helpers that extend their first argument
+						if len(w.Call.Args) > 0 {
+							walk(w.Call.Args[0], d+1)
+						}
+					case *ssa.Phi:
+						for _, e := range w.Edges {
+							walk(e, d+1)
+						}
+					case *ssa.Slice:
+						walk(w.X, d+1)
+					}
+				}
+				walk(c.Call.Args[2], 0)
+				// a condition that looks at the scheme, or at a copy of it saved before the re-parse
+				var onScheme func(v ssa.Value, d int, sn map[ssa.Value]bool) bool
+				onScheme = func(v ssa.Value, d int, sn map[ssa.Value]bool) bool {
+					if v == nil || sn[v] || d > 10 {
+						return false
+					}
+					sn[v] = true
+					if _, fv := loadedField(v); fv != nil && fv.Name() == "scheme" {
+						return true
+					}
+					switch w := v.(type) {
+					case *ssa.BinOp:
+						return onScheme(w.X, d+1, sn) || onScheme(w.Y, d+1, sn)
+					case *ssa.UnOp:
+						return onScheme(w.X, d+1, sn)
+					case *ssa.Slice:
+						return onScheme(w.X, d+1, sn)
+					case *ssa.Phi:
+						for _, e := range w.Edges {
+							if onScheme(e, d+1, sn) {
+								return true
+							}
+						}
+					case *ssa.Call:
+						for _, a := range w.Call.Args {
+							if onScheme(a, d+1, sn) {
+								return true
+							}
+						}
+					}
+					return false
+				}
+				examines := func(i ssa.Instruction) bool {
+					iff, ok := i.(*ssa.If)
+					return ok && (hasAtomContaining(condAtoms(iff.Cond), "URI.scheme") || onScheme(iff.Cond, 0, map[ssa.Value]bool{}))
+				}
+				// (b) or the scheme is examined on every path from the call to a return
+				examined := false
+				if !derives {
+					hit, _ := reachAvoiding(fn, in, isReturn, examines, nil)
+					// returns taken because Parse failed do not count: they are guarded by its error
+					examined = hit == nil
+					if !examined {
+						if rt, ok := hit.(*ssa.Return); ok {
+							onlyErr := true
+							for _, g := range guardsOf(rt.Block()) {
+								_ = g
+							}
+							// search again, ignoring returns that are control-dependent on the error of this call being non-nil
+							h2, _ := reachAvoiding(fn, in, func(i ssa.Instruction) bool {
+								rt2, ok := i.(*ssa.Return)
+								if !ok {
+									return false
+								}
+								for _, g := range guardsOf(rt2.Block()) {
+									if g.Pol && strings.Contains(g.Atom, "URI.Parse") {
+										return false
+									}
+								}
+								return true
+							}, examines, nil)
+							examined = h2 == nil && onlyErr
+						}
+					}
+				}
+				r.Check("R5", fmt.Sprintf("%s: the reference is parsed from text rebuilt with the base scheme, or the scheme is examined afterwards", funcName(fn)), derives || examined, p.Pos(c.Pos()),
+					"URI.Parse resets the URI; the text given to it here was not rebuilt from the base scheme and host and the scheme is not looked at afterwards: a reference without a scheme resolves to plain http, so a host-relative redirect of an https request is followed in clear text")
+			}
+		}
+	}
+	r.Floor("R5", "re-parses during reference resolution", n, 3)
 }
